@@ -165,7 +165,7 @@ REGEXES = [r"\d+", r"[a-z]+", r"a.c", r"\d{2,4}", r"[A-Z][a-z]*", r"(ab)*", r"-?
 
 
 @st.composite
-def constrained(draw, lax_ok=False, origins=None):
+def constrained(draw, lax_ok=False, origins=None, with_args=False):
     o = draw(st.sampled_from(origins or ["int", "int", "float", "decimal", "str", "str", "bytes", "list", "tuple",
                                          "set", "dict", "date", "datetime", "timedelta", "time"]))
     c = {}
@@ -251,6 +251,11 @@ def constrained(draw, lax_ok=False, origins=None):
     spec = {"k": "con", "o": o, "c": c, "m": draw(modes)}
     if lax:
         spec["lax"] = lax
+    if with_args and o in ("list", "set") and draw(st.booleans()):
+        # a constrained container WITH an item type: size constraints meet element conversion (equal-after-conversion members)
+        spec["args"] = [draw(st.sampled_from([{"k": "leaf", "o": "int"}, {"k": "leaf", "o": "str"}, {"k": "leaf", "o": "float"},
+                                              {"k": "con", "o": "int", "c": {"gt": 0}}]))]
+        spec["m"] = "annotate"
     return spec
 
 
@@ -260,8 +265,8 @@ literal_t = st.one_of(
 ).map(lambda v: {"k": "lit", "v": v})
 
 
-def type_specs(max_leaves=5, lax_ok=False, logical=True, data=None):
-    base = st.one_of(leaf, leaf, constrained(lax_ok=lax_ok), constrained(lax_ok=lax_ok), enum_t, literal_t)
+def type_specs(max_leaves=5, lax_ok=False, logical=True, data=None, with_args=False):
+    base = st.one_of(leaf, leaf, constrained(lax_ok=lax_ok, with_args=with_args), constrained(lax_ok=lax_ok, with_args=with_args), enum_t, literal_t)
     if data is not None:
         base = st.one_of(base, data)
     hbase = st.one_of(hashable_leaf, constrained(lax_ok=lax_ok, origins=["int", "str", "float", "decimal"]), enum_t)
@@ -336,6 +341,10 @@ def conforming(spec):
             "uuid": st.one_of(uuids, uuids.map(lambda u: u["v"]), uuids.map(lambda u: {"t": "bytes", "v": u["v"].encode().hex()}), st.integers(0, 2 ** 64).map(_int_spec)),
         }.get(o, scalars)
         extra = []
+        if k == "con" and spec.get("args") and o in ("list", "set"):
+            a = spec["args"][0]
+            el = st.one_of(conforming(a), exact_values(a), st.sampled_from([1, "1", {"t": "float", "v": "1.0"}, {"t": "float", "v": "1.5"}, True, 2, "2", "a", "b"]))
+            base = st.one_of(base, st.lists(el, max_size=5).map(lambda v: {"t": "list", "v": v}), st.lists(el, max_size=5).map(lambda v: {"t": "tuple", "v": v}))
         if k == "con":
             extra = boundary_values(spec)
         opts = [base, base, base.map(_wrap_list)]
@@ -350,7 +359,7 @@ def conforming(spec):
             opts += [st.sampled_from(expo)]
         return st.one_of(*opts)
     if k in ("list", "set", "frozenset", "tuplev"):
-        inner = st.one_of(conforming(spec["a"]), conforming(spec["a"]), conforming(spec["a"]), scalars)
+        inner = st.one_of(conforming(spec["a"]), conforming(spec["a"]), exact_values(spec["a"]), exact_values(spec["a"]), scalars)
         tags = ["list", "tuple"] + (["set"] if k in ("set", "frozenset") else []) + ["deque", "iter"]
         lst = st.lists(inner, max_size=4)
         return st.one_of(
@@ -366,8 +375,8 @@ def conforming(spec):
             exact.map(lambda v: {"t": "list", "v": v[:-1]}),
             scalars)
     if k == "dict":
-        ks = st.one_of(conforming(spec["key"]), conforming(spec["key"]), hashable_scalars).filter(_hashable_spec)
-        vs = st.one_of(conforming(spec["val"]), conforming(spec["val"]), scalars)
+        ks = st.one_of(conforming(spec["key"]), exact_values(spec["key"]), exact_values(spec["key"]), hashable_scalars).filter(_hashable_spec)
+        vs = st.one_of(conforming(spec["val"]), exact_values(spec["val"]), exact_values(spec["val"]), scalars)
         return st.one_of(_dict_of(ks, vs), _dict_of(ks, vs), st.sampled_from(['{"a": 1}', '{"1": "2"}', "a=1&b=2", "{}"]), scalars)
     if k == "lit":
         vals = list(spec["v"])
@@ -601,3 +610,21 @@ def welltyped(spec):
     if extra:
         opts += [st.sampled_from(extra), st.sampled_from(extra)]
     return st.one_of(*opts).filter(lambda vs: _exact_type(vs, o))
+
+
+_WT_ORIGINS = ("int", "float", "decimal", "str", "bytes", "list", "tuple", "set", "frozenset", "dict", "date", "datetime", "time", "timedelta")
+
+
+def exact_values(spec):
+    """values that already have exactly the declared type (need no conversion): with them around, a parse of a container
+    converts nothing - the shape in which 'return the input unchanged' short-cuts show"""
+    k = spec["k"]
+    if k == "leaf" and spec["o"] in _WT_ORIGINS:
+        return welltyped({"k": "con", "o": spec["o"], "c": {}})
+    if k == "leaf":
+        return {"bool": st.booleans(), "none": st.none(), "uuid": uuids, "complex": complexes, "bytearray": bytearrays}.get(spec["o"], scalars)
+    if k == "con" and spec["o"] in _WT_ORIGINS and not spec.get("args"):
+        return welltyped(spec)
+    if k == "enum":
+        return st.sampled_from([{"t": "enum", "e": spec["e"], "m": m.name} for m in codec.ENUMS[spec["e"]]])
+    return conforming(spec)
